@@ -66,7 +66,18 @@ class Algebra:
             self.params[name] = sp.Symbol(name)
         return self.params[name]
 
+    def canon(self, a):
+        """cancel + reduce the powers of root generators (g = f**(p/q): g**q -> f**p)."""
+        a = sp.cancel(sp.together(sp.sympify(a)))
+        n, d = sp.fraction(a)
+        n2, d2 = self.reduce_roots(sp.expand(n)), self.reduce_roots(sp.expand(d))
+        if n2 != sp.expand(n) or d2 != sp.expand(d):
+            a = sp.cancel(n2 / d2)
+        return a
+
     def _gen(self, kind, a, unit=None):
+        if kind in ("E", "R", "L"):
+            a = self.canon(a)
         key = (kind, sp.srepr(a), sp.srepr(unit) if unit is not None else None)
         if key not in self.gens:
             s = sp.Symbol(f"{kind}{len(self.gens)}")
@@ -89,6 +100,8 @@ class Algebra:
                 r = sp.Pow(av, ev(unit))
             elif kind == "L":
                 r = sp.log(av)
+            elif kind == "R":
+                r = sp.erf(av)
             elif kind == "C":
                 r = sp.Integer(int(av))      # int(): truncation towards zero
             else:
@@ -140,6 +153,13 @@ class Algebra:
             return self.glog(self.nf(e.args[0]))
         if isinstance(e, sp.exp):
             return self.gexp(self.nf(e.args[0]))
+        if isinstance(e, sp.erf):
+            a = sp.cancel(sp.together(self.nf(e.args[0])))
+            if a == 0:
+                return sp.Integer(0)
+            if a.could_extract_minus_sign():
+                return -self._gen("R", sp.cancel(-a))     # erf is odd
+            return self._gen("R", a)
         if isinstance(e, TRUNC):
             a = self.nf(e.args[0])
             if self.x in a.free_symbols:
@@ -233,7 +253,7 @@ class Algebra:
         return r
 
     def gexp(self, t):
-        t = sp.expand(sp.cancel(sp.together(t)))
+        t = sp.expand(self.canon(t))
         if t == 0:
             return sp.Integer(1)
         terms = t.as_ordered_terms() if t.is_Add else [t]
@@ -276,20 +296,45 @@ class Algebra:
             return self.D(a) / a
         if kind == "C":
             return sp.Integer(0)
+        if kind == "R":
+            # d erf(t) = 2/sqrt(pi) exp(-t**2) dt
+            return 2 * self.gpow(self.param("pi"), sp.Rational(-1, 2)) * self.gexp(sp.expand(-a ** 2)) * self.D(a)
         return self.D(a) * s
 
     def zero(self, e):
         n, _ = sp.fraction(sp.cancel(sp.together(e)))
-        return sp.expand(n) == 0
+        return sp.expand(self.reduce_roots(sp.expand(n))) == 0
+
+    def reduce_roots(self, n):
+        """Use the relations g**q == f**p of the generators g = f**(p/q) with a rational exponent
+        (square roots etc.): powers of g are reduced below q."""
+        for g in [x for x in n.free_symbols if x in self.info and self.info[x][0] == "G"]:
+            _, f, unit = self.info[g]
+            if not unit.is_Rational or unit.q == 1:
+                continue
+            p_, q_ = unit.p, unit.q
+            poly = sp.Poly(n, g)
+            out = sp.Integer(0)
+            for (k,), c in poly.terms():
+                d, r = divmod(k, q_)
+                out += c * f ** (p_ * d) * g ** r
+            n = sp.expand(sp.numer(sp.together(out))) if p_ < 0 else sp.expand(out)
+        return n
 
     def show(self, e, limit=160):
         """Readable rendering with the generators spelled out."""
         e = sp.sympify(e)
+        try:
+            e = self.canon(e)
+        except Exception:  # noqa: BLE001 - rendering only
+            pass
         sub = {}
         for s in e.free_symbols:
             if s in self.info:
                 kind, a, unit = self.info[s]
-                if kind == "C":
+                if kind == "R":
+                    txt = f"erf({self.show(a, 60)})"
+                elif kind == "C":
                     txt = f"int({self.show(a, 60)})"
                 elif kind == "G":
                     txt = f"({self.show(a, 60)})**({self.show(unit, 30)})"
@@ -323,7 +368,7 @@ class Formula:
         # their defining expressions; a field that stores an argument as it is becomes a parameter symbol
         self.init_defs = {}
         self.init_env = {}
-        init = repo.resolve_method(cls, "__init__")
+        init = repo.resolve_method(cls, "__init__") if cls is not None else None
         if init is not None:
             direct = {}
             for st in strip_docstring(init.node.body):
@@ -512,6 +557,8 @@ class Formula:
                 return sp.Pow(self.ev(e.args[0], env, depth), self.ev(e.args[1], env, depth))
             if fn in ("np.square",) and len(e.args) == 1:
                 return self.ev(e.args[0], env, depth) ** 2
+            if fn in ("erf", "scipy.special.erf", "special.erf", "math.erf") and len(e.args) == 1:
+                return sp.erf(self.ev(e.args[0], env, depth))
             if fn in ("int", "np.trunc", "math.trunc", "np.fix") and len(e.args) == 1:
                 return TRUNC(self.ev(e.args[0], env, depth))
             if fn in IDENT_CALLS and len(e.args) == 1:
